@@ -182,7 +182,9 @@ func checkC03(c C03Case) *Violation {
 		if key.Minor {
 			want = []string{"1", "2", "b3", "4", "5", "b6", "b7"}
 		}
-		if degText != want[ri] {
+		gotIv, ok1 := theory.ReadNotation(degText)
+		wantIv, _ := theory.ReadNotation(want[ri])
+		if !ok1 || gotIv != wantIv {
 			return vio("scale-degree", "%s: scale note %d of %s converts to %q, the scale's own degree is %q", what, ri+1, c.Key, degText, want[ri])
 		}
 	}
